@@ -291,3 +291,330 @@ def minimise_c04(bindir, case, cls):
 def replay_c04(bindir, rp):
     vs, _, _ = exec_case_c04(bindir, rp["case"])
     return [(c, d) for (c, d, j, r) in vs]
+
+
+# ================================================================================================
+# C05: termination and faithful failure
+
+
+def inject_failure(rng, spec):
+    """Mutates spec; returns a description {kind, where, bad: set(labels whose presence in the closure implies failure), bad_pkgs: set(pkgs)}"""
+    ts = rs.all_targets(spec)
+    gen = [(p, t) for p, t in ts if t["kind"] == "genrule"]
+    kind = rng.choice(["cmd", "cmd", "undefined-dep", "missing-pkg", "parse-error", "cycle", "cycle", "none"])
+    inj = {"kind": kind, "bad": [], "bad_pkgs": [], "cycle": []}
+    if kind == "cmd" and gen:
+        p, t = rng.choice(gen)
+        t["fail"] = True
+        inj["bad"] = [rs.label(p, t["name"])]
+    elif kind == "undefined-dep" and gen:
+        p, t = rng.choice(gen)
+        t["srcs"].append("t://%s:nonexistent_%s" % (p, t["name"]))
+        inj["bad"] = [rs.label(p, t["name"])]
+    elif kind == "missing-pkg" and gen:
+        p, t = rng.choice(gen)
+        t["srcs"].append("t://no/such/pkg:x")
+        inj["bad"] = [rs.label(p, t["name"])]
+    elif kind == "parse-error":
+        p = rng.choice(sorted(spec["pkgs"]))
+        spec["pkgs"][p]["raw_suffix"] = rng.choice(["this is ( not valid\n", "genrule(name = 'broken', cmd = )\n", "x = undefined_function_%d()\n" % rng.intn(10), "def f(:\n"])
+        inj["bad_pkgs"] = [p]
+        inj["bad"] = [rs.label(p, t["name"]) for t in spec["pkgs"][p]["targets"]]
+    elif kind == "cycle" and len(gen) >= 1:
+        # a cycle through 1..n genrules: make the earliest depend on the latest along an existing or new chain
+        n = rng.rng(1, min(4, len(gen)))
+        gen.sort(key=lambda pt: int(pt[1]["name"][1:]))
+        chain = rng.sample(gen, n)
+        chain.sort(key=lambda pt: int(pt[1]["name"][1:]))
+        # ensure chain[i+1] depends on chain[i]
+        for i in range(len(chain) - 1):
+            ref = "t:" + rs.label(chain[i][0], chain[i][1]["name"])
+            if ref not in chain[i + 1][1]["srcs"]:
+                chain[i + 1][1]["srcs"].append(ref)
+        back = "t:" + rs.label(chain[-1][0], chain[-1][1]["name"])
+        chain[0][1]["srcs"].append(back)
+        inj["cycle"] = [rs.label(p, t["name"]) for p, t in chain]
+        inj["bad"] = list(inj["cycle"])
+        if n == 1:
+            # a self-dependency is rejected while the package is being parsed: the whole BUILD file is in error
+            inj["bad_pkgs"] = [chain[0][0]]
+    else:
+        inj["kind"] = "none"
+    return inj
+
+
+def expected_failure(spec, req, inj):
+    """True if the request's closure contains the injected failure."""
+    if inj["kind"] == "none":
+        return False
+    labs = set(request_closure(spec, req))
+    if set(inj["bad"]) & labs:
+        return True
+    # packages that get parsed: every package of a label in the closure, plus packages named by :all / ...
+    if inj["bad_pkgs"]:
+        pk = set()
+        for l in labs:
+            pk.add(l[2:].split(":")[0])
+        for r in req:
+            if r == "//...":
+                pk |= set(spec["pkgs"])
+            elif r.endswith(":all"):
+                pk.add(r[2:-4])
+        if pk & set(inj["bad_pkgs"]):
+            return True
+    return False
+
+
+def parse_cycles(stderr):
+    """Extracts reported cycles: list of label lists."""
+    out = []
+    lines = stderr.splitlines()
+    i = 0
+    while i < len(lines):
+        if "Dependency cycle found:" in lines[i]:
+            cyc = []
+            i += 1
+            while i < len(lines):
+                l = lines[i].strip()
+                if l.startswith("-> "):
+                    cyc.append(l[3:].strip())
+                elif l.startswith("//") and not cyc:
+                    cyc.append(l)
+                else:
+                    break
+                i += 1
+            if cyc:
+                out.append(cyc)
+        else:
+            i += 1
+    return out
+
+
+def oracle_c05(spec, req, inj, res, log):
+    v = []
+    if res.exit == simlib.EXIT_HANG:
+        return [("hang", "invocation did not terminate within the step/simulated-time bound: %s" % res.sim_fail)]
+    exp = expected_failure(spec, req, inj)
+    if exp and res.exit == 0:
+        v.append(("exit-zero-on-failure", "injected %s (%s) is in the closure of %s but plz exited 0" % (inj["kind"], inj["bad"][:3], req)))
+    if not exp and res.exit != 0:
+        v.append(("exit-nonzero-on-success", "nothing in the closure of %s can fail (injected %s at %s) but plz exited %d; stderr tail: %s" % (req, inj["kind"], inj["bad"][:3], res.exit, res.stderr[-600:])))
+    # nothing runs whose dependency failed / never finished
+    cmds = cmd_targets(spec)
+    starts, ends = {}, {}
+    for i, l in enumerate(log):
+        if l[0] == "S":
+            starts.setdefault(l[1], []).append(i)
+        elif l[0] == "E":
+            ends.setdefault(l[1], []).append((i, l[2] if len(l) > 2 else "ok"))
+    memo = {}
+    for lab, ss in sorted(starts.items()):
+        if len(ss) > 1:
+            v.append(("ran-twice", "command of %s started %d times" % (lab, len(ss))))
+        for d in sorted(cmd_preds(spec, lab, cmds, memo)):
+            oks = [i for (i, st) in ends.get(d, []) if st == "ok"]
+            if not oks or min(oks) > ss[0]:
+                v.append(("ran-after-failed-dep", "%s started although its dependency %s had not finished successfully (%s)" % (lab, d, ends.get(d))))
+    # the injected bad targets' dependants never start
+    # reported cycles are genuine
+    cycs = parse_cycles(res.stderr)
+    for cyc in cycs:
+        body = cyc[:-1] if len(cyc) > 1 and cyc[0] == cyc[-1] else cyc
+        ok = True
+        for i, a in enumerate(body):
+            b = body[(i + 1) % len(body)]
+            fa = rs.find_target(spec, a)
+            if fa is None or b not in rs.direct_deps(spec, fa[0], fa[1]):
+                ok = False
+        if not ok:
+            v.append(("false-cycle", "reported cycle %s is not a cycle of the repository" % cyc))
+    if cycs and inj["kind"] != "cycle":
+        v.append(("false-cycle", "cycle reported on an acyclic repository: %s" % cycs[:1]))
+    return v
+
+
+def gen_case_c05(seed, tier):
+    rng = Rng(seed)
+    spec = rs.gen_repo(rng, n_targets=(3, 12), n_pkgs=(1, 4), dep_density=0.55, use_defs_p=0.25, max_fanin=8, allow_dir=False)
+    inj = inject_failure(rng, spec)
+    req = pick_request(rng, spec)
+    if inj["kind"] != "none" and rng.chance(0.5) and inj["bad"]:
+        # make sure the failure is often reachable
+        req = [rng.choice(inj["bad"])] if rng.chance(0.5) else ["//..."]
+    nrun = 3 if tier == "quick" else 6
+    runs = []
+    for j in range(nrun):
+        threads = rng.choice([1, 2, 4, 8, 16])
+        args = ["build"] + req + BASE_ARGS + ["-n", str(threads)]
+        if rng.chance(0.4):
+            args.append("--keep_going")
+        runs.append({"args": args, "seed": subseed(seed, "run%d" % j), "policy": "", "num_stalls": rng.choice([0, 0, 1, 2, 3]), "horizon": 1500})
+    return {"spec": spec, "req": req, "inj": inj, "runs": runs}
+
+
+def exec_case_c05(bindir, case):
+    spec = case["spec"]
+    espec = effective_spec(spec)
+    out = []
+    stats = {"sched_steps": 0, "sim_ms": 0, "stalls_fired": 0, "choices2plus": 0, "policies": {}, "injected": {}, "exit_nonzero": 0, "cycle_reports": 0}
+    sigs = []
+    with Scratch("c05") as sc:
+        repo = sc.path("repo")
+        log = sc.path("log")
+        os.makedirs(repo)
+        os.makedirs(sc.path("home"))
+        rs.materialise(spec, repo, log)
+        for j, run in enumerate(case["runs"]):
+            shutil.rmtree(os.path.join(repo, "plz-out"), ignore_errors=True)
+            if os.path.exists(log):
+                os.remove(log)
+            res = run_plz(bindir, repo, run["args"], run["seed"], sc.path("home"), sc.path("trace%d" % j),
+                          policy=run.get("policy", ""), choices=run.get("choices"), stalls=run.get("stalls"),
+                          num_stalls=run.get("num_stalls", 0), horizon=run.get("horizon", 0))
+            vs = oracle_c05(espec, case["req"], case["inj"], res, read_log(log))
+            st = res.stats
+            stats["sched_steps"] += st.get("steps", 0)
+            stats["sim_ms"] += st.get("sim_ms", 0)
+            stats["stalls_fired"] += st.get("stalls", 0)
+            stats["choices2plus"] += st.get("choices2plus", 0)
+            k = case["inj"]["kind"]
+            stats["injected"][k] = stats["injected"].get(k, 0) + 1
+            if res.exit != 0:
+                stats["exit_nonzero"] += 1
+            if "Dependency cycle found" in res.stderr:
+                stats["cycle_reports"] += 1
+            for pk, n in (st.get("probes") or {}).items():
+                stats.setdefault("probes", {})
+                stats["probes"][pk] = stats["probes"].get(pk, 0) + n
+            sigs.append(sig(res.trace_digest()))
+            if vs:
+                run2 = dict(run)
+                run2["choices"] = res.choices()
+                run2["stalls"] = res.stalls()
+                for (c, d) in vs:
+                    out.append((c, d, j, run2))
+                break
+    return out, stats, sigs
+
+
+def case_c05(bindir, seed, index, tier, extra):
+    r = CaseResult()
+    case = gen_case_c05(seed, tier)
+    vs, stats, sigs = exec_case_c05(bindir, case)
+    r.evals = len(case["runs"]) if not vs else vs[0][2] + 1
+    r.stats = stats
+    r.sigs = sigs
+    if index < 3:
+        r.sample = {"request": case["req"], "injected": case["inj"], "runs": [x["args"] for x in case["runs"]]}
+    for (c, d, j, run2) in vs[:1]:
+        rcase = {"spec": case["spec"], "req": case["req"], "inj": case["inj"], "runs": [run2]}
+        r.violations.append(Violation(c, d, {"engine": "schedsim", "case": rcase}))
+    return r
+
+
+def replay_c05(bindir, rp):
+    vs, _, _ = exec_case_c05(bindir, rp["case"])
+    return [(c, d) for (c, d, j, r) in vs]
+
+
+# ================================================================================================
+# C07: hash determinism
+
+
+def enrich_for_hashing(rng, spec):
+    """Adds multi-key maps and lists to genrules so that any map/slice order leak can show."""
+    ts = [(p, t) for p, t in rs.all_targets(spec) if t["kind"] == "genrule"]
+    for p, t in ts:
+        if rng.chance(0.6):
+            t["env"] = {"EV_%s_%d" % (t["name"].upper(), i): "v%d" % rng.intn(50) for i in range(rng.rng(3, 5))}
+        if rng.chance(0.5):
+            t["labels"] = ["lab%d" % rng.intn(9) for _ in range(rng.rng(2, 4))]
+        if rng.chance(0.3) and t["srcs"]:
+            t["named_srcs"] = True
+        if rng.chance(0.3):
+            t["pass_env"] = ["PE_A", "PE_B", "PE_C"]
+    return spec
+
+
+def hash_lines(stdout):
+    return [l for l in stdout.splitlines() if l.strip() and "total time" not in l]
+
+
+def gen_case_c07(seed, tier):
+    rng = Rng(seed)
+    spec = rs.gen_repo(rng, n_targets=(4, 12), n_pkgs=(2, 4), dep_density=0.55, use_defs_p=0.3, max_fanin=6)
+    enrich_for_hashing(rng, spec)
+    if rng.chance(0.4):
+        add_require_provide(rng, spec)
+    spec["config"]["hash"] = rng.choice(["sha1", "sha256", "blake3", "xxhash", "crc32", "crc64"])
+    labs = [rs.label(p, t["name"]) for p, t in rs.all_targets(spec)]
+    nrun = 6 if tier == "quick" else 16
+    runs = []
+    detailed = rng.chance(0.5)
+    for j in range(nrun):
+        order = list(labs)
+        rng.shuffle(order)
+        threads = [1, 16][j % 2]
+        args = ["hash"] + (["--detailed"] if detailed else []) + order + BASE_ARGS + ["-n", str(threads)]
+        runs.append({"args": args, "seed": subseed(seed, "run%d" % j), "policy": "", "fresh": rng.chance(0.6)})
+    return {"spec": spec, "runs": runs}
+
+
+def exec_case_c07(bindir, case):
+    out = []
+    stats = {"sched_steps": 0, "policies": {}, "hash_fn": {case["spec"]["config"]["hash"]: 1}, "detailed_runs": 0}
+    sigs = []
+    ref = None
+    with Scratch("c07") as sc:
+        repo = sc.path("repo")
+        log = sc.path("log")
+        os.makedirs(repo)
+        os.makedirs(sc.path("home"))
+        rs.materialise(case["spec"], repo, log)
+        for j, run in enumerate(case["runs"]):
+            if run.get("fresh", True):
+                shutil.rmtree(os.path.join(repo, "plz-out"), ignore_errors=True)
+            res = run_plz(bindir, repo, run["args"], run["seed"], sc.path("home"), sc.path("trace%d" % j),
+                          policy=run.get("policy", ""), choices=run.get("choices"), env_extra={"PE_A": "1", "PE_B": "2", "PE_C": "3"})
+            st = res.stats
+            stats["sched_steps"] += st.get("steps", 0)
+            pol = st.get("policy", "?")
+            stats["policies"][pol] = stats["policies"].get(pol, 0) + 1
+            if "--detailed" in run["args"]:
+                stats["detailed_runs"] += 1
+            sigs.append(sig(res.trace_digest()))
+            if res.exit == simlib.EXIT_HANG:
+                out.append(("hang", "plz hash did not terminate: %s" % res.sim_fail, j, dict(run, choices=res.choices())))
+                break
+            if res.exit != 0:
+                out.append(("hash-failed", "plz hash exited %d: %s" % (res.exit, res.stderr[-600:]), j, dict(run, choices=res.choices())))
+                break
+            hl = hash_lines(res.stdout)
+            if ref is None:
+                ref = (j, hl, dict(run, choices=res.choices()))
+            elif hl != ref[1]:
+                diff = [(a, b) for a, b in zip(ref[1], hl) if a != b][:4]
+                out.append(("hash-differs", "run %d and run %d of the same repository print different hashes: %s" % (ref[0], j, diff), j, dict(run, choices=res.choices())))
+                case["ref_run"] = ref[2]
+                break
+    return out, stats, sigs
+
+
+def case_c07(bindir, seed, index, tier, extra):
+    r = CaseResult()
+    case = gen_case_c07(seed, tier)
+    vs, stats, sigs = exec_case_c07(bindir, case)
+    r.evals = len(case["runs"]) if not vs else vs[0][2] + 1
+    r.stats = stats
+    r.sigs = sigs
+    if index < 2:
+        r.sample = {"hash_fn": case["spec"]["config"]["hash"], "runs": [x["args"][:6] for x in case["runs"][:3]]}
+    for (c, d, j, run2) in vs[:1]:
+        runs = [case.get("ref_run") or case["runs"][0], run2] if c == "hash-differs" else [run2]
+        r.violations.append(Violation(c, d, {"engine": "schedsim", "case": {"spec": case["spec"], "runs": runs}}))
+    return r
+
+
+def replay_c07(bindir, rp):
+    vs, _, _ = exec_case_c07(bindir, rp["case"])
+    return [(c, d) for (c, d, j, r) in vs]
